@@ -259,10 +259,14 @@ def check_substructures(rep, prog):
         _, L, ref, g = items[0]
         okm = equivalent(L.trip, binop("bitand", at(3, 1), Const(0x0F)))[0] and g == TRUE and not L.breaks
         o = I.heap.get(ref.oid) if isinstance(ref, Ref) else None
+        want_id = IntF(add(add(B, Const(12)), mul(Const(8), L.idx)), 4)
+        want_pr = IntF(add(add(B, Const(8)), mul(Const(8), L.idx)), 4)
         if okm and isinstance(o, Instance):
-            want_id = IntF(add(add(B, Const(12)), mul(Const(8), L.idx)), 4)
-            want_pr = IntF(add(add(B, Const(8)), mul(Const(8), L.idx)), 4)
             okm = o.attrs.get("id") == want_id and o.attrs.get("priority") == want_pr
+        elif okm and getattr(o, "fields", None) and {"id", "priority"} <= set(o.fields):
+            # (a named tuple instead of a class with two attributes)
+            vals = dict(zip(o.fields, [it[1] for it in o.items]))
+            okm = vals.get("id") == want_id and vals.get("priority") == want_pr
         else:
             okm = False
     rep.check(okm, rule, "MRU list: (flags & 0xF) entries of (priority @+8+8i, id @+12+8i)", "MRU", "self.mrus.append(...)",
